@@ -276,6 +276,21 @@ func c09CallGated(kind int, in []byte, rng *lib.Rand, poolB bool, gate func(), g
 			e := fit.Encode(&buf, f, archOrder(int(in[0])%2))
 			ie := fit.CheckIntegrity(bytes.NewReader(buf.Bytes()), false)
 			out = fmt.Sprintf("%d|%s|%s|%v|%s", buf.Len(), h64(buf.Bytes()), lib.ErrText(e), f.CRC, lib.ErrText(ie))
+		case 13: // a failed Encode (the destination gives up in the middle), then a good one
+			f, e := fit.Decode(bytes.NewReader(in))
+			if e != nil {
+				out = "decode:" + e.Error()
+				return
+			}
+			fw := &failWriter{n: 2 + len(in)%2}
+			e1 := fit.Encode(fw, f, archOrder(len(in)%2))
+			w := &yieldWriter{}
+			e2 := fit.Encode(w, f, archOrder(len(in)%2))
+			ie := fit.CheckIntegrity(bytes.NewReader(w.buf.Bytes()), false)
+			out = lib.ErrText(e1) + "|" + lib.ErrText(e2) + "|" + lib.ErrText(ie)
+			if !poolB {
+				out += "|" + h64(w.buf.Bytes())
+			}
 		default:
 			f, e := fit.Decode(bytes.NewReader(in))
 			if e != nil {
@@ -301,7 +316,7 @@ func c09CallGated(kind int, in []byte, rng *lib.Rand, poolB bool, gate func(), g
 // default branch, which uses kind%2 as byte order; the added kinds are 8..11).
 func c09Kind(k int) int { return k }
 
-var c09KindNames = []string{"Decode", "Decode", "DecodeChained", "CheckIntegrity", "DecodeHeader+MarshalJSON", "DecodeHeaderAndFileID", "Decode+Encode", "Decode+Encode", "Decode(options)", "Decode(corrupted,options)+CheckIntegrity", "NewFile+Encode+Decode", "String methods", "Encode of a File larger than 4 MiB"}
+var c09KindNames = []string{"Decode", "Decode", "DecodeChained", "CheckIntegrity", "DecodeHeader+MarshalJSON", "DecodeHeaderAndFileID", "Decode+Encode", "Decode+Encode", "Decode(options)", "Decode(corrupted,options)+CheckIntegrity", "NewFile+Encode+Decode", "String methods", "Encode of a File larger than 4 MiB", "Decode+Encode into a destination that fails on its 2nd or 3rd write, then Encode again"}
 
 // C09Sub: "run <index> <goroutines> <pool> <callsPerGoroutine>".
 func C09Sub(args []string) int {
@@ -451,8 +466,11 @@ func C09Sub(args []string) int {
 				}
 			}
 			for n := 0; n < per; n++ {
-				k := rng.Intn(len(c09KindNames) - 1) // the large Encode (last kind) is not drawn at random
-				i := rng.Intn(3)                     // few distinct inputs: all goroutines hammer the same message kinds
+				k := rng.Intn(len(c09KindNames) - 1) // the large Encode (kind 12) is not drawn at random
+				if k == 12 {
+					k = 13
+				}
+				i := rng.Intn(3) // few distinct inputs: all goroutines hammer the same message kinds
 				if rng.Chance(1, 5) {
 					i = rng.Intn(len(mine))
 				}
